@@ -1,5 +1,257 @@
+import NA.Model.PanOs
 import NA.Core.IOUtil
-/-! Driver stub for C03 (not built yet): echoes its input. -/
+/-!
+Driver for C03 (and the PAN-OS share of C07, C08, C10).  One request per line, fields separated
+by TAB; every string is percent-encoded (safe: letters, digits, `_ . -`; the empty string is `~`).
+
+* `PLAN  devA devB shared A B scripts` — model of `GetChanges` on decoded device `A` and target `B`
+  (each a `!`-joined list of vsys `name|rules|addrs|groups|svcs|sgroups`, entries `;`-joined,
+  fields `:`-joined, lists `,`-joined).  `scripts`: the real rule edit scripts per vsys
+  (`name=l.h.l.h,…` joined by `!`), validated and compared with the port.
+  Answer: `ok|err  commands-or-message  flags`.
+* `EXEC  shared V cmds T` — strict execution of `cmds` on vsys `V`; `T` = target vsys.
+  Answer: `accepted=<k> err=<reason|-> equiv=<0|1> wf=<0|1>  <vsys reached>`.
+* `MYERS n m bits` — the port of `myers.Diff` on an equality matrix; answer: ranges.
+-/
+namespace NA.Drv.C03
+open NA.PanOs
+
+/-! ### percent coding -/
+
+def hexVal (c : Char) : Option Nat :=
+  if '0' ≤ c && c ≤ '9' then some (c.toNat - '0'.toNat)
+  else if 'A' ≤ c && c ≤ 'F' then some (c.toNat - 'A'.toNat + 10)
+  else if 'a' ≤ c && c ≤ 'f' then some (c.toNat - 'a'.toNat + 10)
+  else none
+
+def decodeBytes : List Char → ByteArray → ByteArray
+  | [], acc => acc
+  | '%' :: h :: l :: rest, acc =>
+    match hexVal h, hexVal l with
+    | some x, some y => decodeBytes rest (acc.push (UInt8.ofNat (16 * x + y)))
+    | _, _ => decodeBytes rest acc
+  | c :: rest, acc => decodeBytes rest (acc.push (UInt8.ofNat c.toNat))
+
+def dec (s : String) : String :=
+  if s == "~" then "" else
+  match String.fromUTF8? (decodeBytes s.toList ByteArray.empty) with
+  | some r => r
+  | none => s
+
+def hexDigit (n : Nat) : Char :=
+  if n < 10 then Char.ofNat ('0'.toNat + n) else Char.ofNat ('A'.toNat + n - 10)
+
+def enc (s : String) : String :=
+  if s.isEmpty then "~" else
+  String.ofList (s.toUTF8.toList.flatMap (fun b =>
+    let c := Char.ofNat b.toNat
+    if c.isAlphanum || c == '_' || c == '.' || c == '-' then [c]
+    else ['%', hexDigit (b.toNat / 16), hexDigit (b.toNat % 16)]))
+
+def splitNE (s : String) (sep : String) : List String := if s.isEmpty then [] else s.splitOn sep
+
+def decList (s : String) : List String := (splitNE s ",").map dec
+def encList (l : List String) : String := ",".intercalate (l.map enc)
+
+/-! ### configuration codec -/
+
+def parseRule (s : String) : Option Rule :=
+  match s.splitOn ":" with
+  | [n, h, a, b, c] => some ⟨dec n, dec h, decList a, decList b, decList c⟩
+  | _ => none
+
+def parseObj (s : String) : Option Obj :=
+  match s.splitOn ":" with
+  | [n, v] => some ⟨dec n, dec v⟩
+  | _ => none
+
+def parseGrp (s : String) : Option Grp :=
+  match s.splitOn ":" with
+  | [n, ms] => some ⟨dec n, decList ms⟩
+  | _ => none
+
+def parseVsys (s : String) : Option Vsys :=
+  match s.splitOn "|" with
+  | [n, rs, as, gs, ss, sgs] => do
+    let rules ← (splitNE rs ";").mapM parseRule
+    let addrs ← (splitNE as ";").mapM parseObj
+    let groups ← (splitNE gs ";").mapM parseGrp
+    let svcs ← (splitNE ss ";").mapM parseObj
+    let sgroups ← (splitNE sgs ";").mapM parseGrp
+    pure { name := dec n, rules, addrs, groups, svcs, sgroups }
+  | _ => none
+
+def parseDevice (s : String) : Option (List Vsys) := (splitNE s "!").mapM parseVsys
+
+def showRule (r : Rule) : String :=
+  s!"{enc r.name}:{enc r.hdr}:{encList r.src}:{encList r.dst}:{encList r.srv}"
+def showObj (o : Obj) : String := s!"{enc o.name}:{enc o.val}"
+def showGrp (g : Grp) : String := s!"{enc g.name}:{encList g.members}"
+def showVsys (v : Vsys) : String :=
+  "|".intercalate [enc v.name, ";".intercalate (v.rules.map showRule), ";".intercalate (v.addrs.map showObj),
+    ";".intercalate (v.groups.map showGrp), ";".intercalate (v.svcs.map showObj),
+    ";".intercalate (v.sgroups.map showGrp)]
+
+/-! ### command codec -/
+
+def showFld : Fld → String | .src => "src" | .dst => "dst" | .srv => "srv"
+def parseFld : String → Option Fld
+  | "src" => some .src | "dst" => some .dst | "srv" => some .srv | _ => none
+
+def showCmd : Cmd → String
+  | .setAddr n v => s!"setaddr:{enc n}:{enc v}"
+  | .editAddr n v => s!"editaddr:{enc n}:{enc v}"
+  | .setGrp n ms => s!"setgrp:{enc n}:{encList ms}"
+  | .setSvc n v => s!"setsvc:{enc n}:{enc v}"
+  | .editSvc n v => s!"editsvc:{enc n}:{enc v}"
+  | .setSGrp n ms => s!"setsgrp:{enc n}:{encList ms}"
+  | .delRule n => s!"delrule:{enc n}"
+  | .setRule r => s!"setrule:{showRule r}"
+  | .move n d => s!"move:{enc n}:{enc d}"
+  | .delMem n f m => s!"delmem:{enc n}:{showFld f}:{enc m}"
+  | .addMem n f ms => s!"addmem:{enc n}:{showFld f}:{encList ms}"
+  | .editList n f ms => s!"editlist:{enc n}:{showFld f}:{encList ms}"
+  | .delGMem g m => s!"delgmem:{enc g}:{enc m}"
+  | .delGrp n => s!"delgrp:{enc n}"
+  | .delAddr n => s!"deladdr:{enc n}"
+  | .delSGrp n => s!"delsgrp:{enc n}"
+  | .delSvc n => s!"delsvc:{enc n}"
+  | .bad w => s!"bad:{enc w}"
+
+def parseCmd (s : String) : Cmd :=
+  match s.splitOn ":" with
+  | ["setaddr", n, v] => .setAddr (dec n) (dec v)
+  | ["editaddr", n, v] => .editAddr (dec n) (dec v)
+  | ["setgrp", n, ms] => .setGrp (dec n) (decList ms)
+  | ["setsvc", n, v] => .setSvc (dec n) (dec v)
+  | ["editsvc", n, v] => .editSvc (dec n) (dec v)
+  | ["setsgrp", n, ms] => .setSGrp (dec n) (decList ms)
+  | ["delrule", n] => .delRule (dec n)
+  | ["setrule", n, h, a, b, c] => .setRule ⟨dec n, dec h, decList a, decList b, decList c⟩
+  | ["move", n, d] => .move (dec n) (dec d)
+  | ["delmem", n, f, m] => match parseFld f with | some f => .delMem (dec n) f (dec m) | none => .bad s
+  | ["addmem", n, f, ms] => match parseFld f with | some f => .addMem (dec n) f (decList ms) | none => .bad s
+  | ["editlist", n, f, ms] => match parseFld f with | some f => .editList (dec n) f (decList ms) | none => .bad s
+  | ["delgmem", g, m] => .delGMem (dec g) (dec m)
+  | ["delgrp", n] => .delGrp (dec n)
+  | ["deladdr", n] => .delAddr (dec n)
+  | ["delsgrp", n] => .delSGrp (dec n)
+  | ["delsvc", n] => .delSvc (dec n)
+  | ["bad", w] => .bad (dec w)
+  | _ => .bad s
+
+def showCmds (cs : List Cmd) : String := ";".intercalate (cs.map showCmd)
+def parseCmds (s : String) : List Cmd := (splitNE s ";").map parseCmd
+
+def showRanges (rs : List Range) : String :=
+  ",".intercalate (rs.map (fun r => s!"{r.lowA}.{r.highA}.{r.lowB}.{r.highB}"))
+
+def parseRanges (s : String) : Option (List Range) :=
+  (splitNE s ",").mapM (fun t =>
+    match (t.splitOn ".").mapM String.toNat? with
+    | some [a, b, c, d] => some ⟨a, b, c, d⟩
+    | _ => none)
+
+def b2s (b : Bool) : String := if b then "1" else "0"
+
+/-! ### PLAN -/
+
+/-- Same-named service-group on both sides whose member lists differ (class of F-C03a). -/
+def sgroupChanged (a b : Vsys) : Bool :=
+  b.sgroups.any (fun gb => a.sgroups.any (fun ga => ga.name == gb.name && ga.members != gb.members))
+
+/-- Target names that collide after `genUniq*Names` (class of F-C03c; repaired). -/
+def uniqClash (a b : Vsys) : Bool :=
+  !nodupB (uniqNames (ruleNames a.rules) (ruleNames b.rules)) ||
+  !nodupB (uniqNames (a.groups.map (·.name)) (b.groups.map (·.name)))
+
+/-- A source / destination list with more than one member one of which is an address-group
+(class of F-C03d). -/
+def hasMixedList (v : Vsys) : Bool :=
+  v.rules.any (fun r => [r.src, r.dst].any (fun l =>
+    l.length > 1 && l.any (fun m => v.groups.any (·.name == m))))
+
+def pairFlags (sh : Shared) (a b : Vsys) : String :=
+  s!"wfA={b2s (wellFormed sh a)},wfB={b2s (wellFormed sh b)},nestA={b2s (!noNested a)},nestB={b2s (!noNested b)}," ++
+  s!"sgchg={b2s (sgroupChanged a b)},uniq={b2s (uniqClash a b)},mixed={b2s (hasMixedList a || hasMixedList b)}"
+
+def checkScripts (dev tgt : List Vsys) (s : String) : String :=
+  let items := splitNE s "!"
+  let res := items.map (fun it =>
+    match it.splitOn "=" with
+    | [n, rs] =>
+      match parseRanges rs, vsysMap dev (dec n), vsysMap tgt (dec n) with
+      | some rs, some a0, some b0 =>
+        let a := sortVsys a0
+        let b := sortVsys b0
+        let eq := fun i j => ruleEqual a b (a.rules.getD i default) (b.rules.getD j default)
+        if !(validScript eq a.rules.length b.rules.length rs && normalised rs) then "invalid"
+        else if myersDiff a.rules.length b.rules.length eq != rs then "portdiff"
+        else "ok"
+      | _, _, _ => "unparsed"
+    | _ => "unparsed")
+  match res.find? (· != "ok") with
+  | some r => r
+  | none => "ok"
+
+def answerPlan (devA devB shared a b scripts : String) : String :=
+  match parseDevice a, parseDevice b with
+  | some dev, some tgt =>
+    let sh := decList shared
+    let flags := " ".intercalate (dev.filterMap (fun v1 =>
+      (vsysMap tgt v1.name).map (fun v2 => s!"{enc v1.name}:{pairFlags sh v1 v2}")))
+    let sc := checkScripts dev tgt scripts
+    match planDevice myersDiff (dec devA) (dec devB) dev tgt with
+    | .error e => s!"err\t{e}\tscript={sc} {flags}"
+    | .ok l =>
+      let body := "!".intercalate (l.map (fun (n, cs) => s!"{enc n}|{showCmds cs}"))
+      s!"ok\t{body}\tscript={sc} {flags}"
+  | _, _ => "bad-input"
+
+/-! ### EXEC -/
+
+/-- Where the first difference between the device rules and the target rules lies. -/
+def mismatch (dv tv : Vsys) : List Rule → List Rule → String
+  | [], [] => "none"
+  | d :: ds, t :: ts =>
+    if d.hdr != t.hdr then "hdr"
+    else if !sameSet (addrContent dv d.src) (addrContent tv t.src) then "src"
+    else if !sameSet (addrContent dv d.dst) (addrContent tv t.dst) then "dst"
+    else if !sameSet (srvContent dv d.srv) (srvContent tv t.srv) then "srv"
+    else mismatch dv tv ds ts
+  | _, _ => "len"
+
+def answerExec (shared v cmds t : String) : String :=
+  match parseVsys v with
+  | none => "bad-input"
+  | some v0 =>
+    let sh := decList shared
+    let (w, k, e) := execAll sh v0 (parseCmds cmds)
+    let (eqv, mm) := match parseVsys t with
+      | some tv => (b2s (equiv w tv), mismatch w tv w.rules tv.rules)
+      | none => ("-", "-")
+    s!"accepted={k} err={(e.map enc).getD "-"} equiv={eqv} mismatch={mm} wf={b2s (wellFormed sh w)}\t{showVsys w}"
+
+/-! ### MYERS -/
+
+def answerMyers (n m bits : String) : String :=
+  match n.toNat?, m.toNat? with
+  | some n, some m =>
+    let arr := bits.toList.toArray
+    let eq := fun i j => arr.getD (i * m + j) '0' == '1'
+    let rs := myersDiff n m eq
+    s!"{showRanges rs}\tvalid={b2s (validScript eq n m rs)} norm={b2s (normalised rs)}"
+  | _, _ => "bad-input"
+
+def answer (line : String) : String :=
+  match line.splitOn "\t" with
+  | ["PLAN", devA, devB, sh, a, b, sc] => answerPlan devA devB sh a b sc
+  | ["EXEC", sh, v, cmds, t] => answerExec sh v cmds t
+  | ["MYERS", n, m, bits] => answerMyers n m bits
+  | _ => "bad-request"
+
+end NA.Drv.C03
+
 def main (_ : List String) : IO UInt32 := do
-  NA.IOUtil.eachLine id
+  NA.IOUtil.eachLine NA.Drv.C03.answer
   return 0
